@@ -47,7 +47,17 @@ func ReplayMain(t *testing.T, harnesses map[string]func()) {
 		case o := <-done:
 			outs = append(outs, o)
 		case <-time.After(time.Duration(wd) * time.Millisecond):
-			outs = append(outs, &Outcome{Timeout: true})
+			to := &Outcome{Timeout: true}
+			if st := cur; st != nil {
+				for _, name := range st.order {
+					if st.open[name] && st.classes[name] {
+						to.Timeout = false
+						to.Known = append(to.Known, "timeout|"+name)
+						break
+					}
+				}
+			}
+			outs = append(outs, to)
 			flush()
 			os.Exit(0)
 		}
